@@ -132,16 +132,37 @@ def discharge(ob, inputs, timeout_s=30, use_cvc5=True, ufuns=None):
         done = None
         if _relaxed_unsat(ob, min(timeout_s, 6)):
             done = 'z3:real-relaxation(nlsat)'
-        elif use_cvc5 and _cvc5(s.to_smt2().replace('(check-sat)', ''), timeout_s) == 'unsat':
-            done = 'cvc5'
-        elif timeout_s > 6 and _relaxed_unsat(ob, timeout_s):
-            done = 'z3:real-relaxation(nlsat)'
+        if not done and timeout_s > 12:
+            # second round with three times the budget before the expensive back ends: an obligation that needs 2 - 5 s on an idle
+            # machine must not fall through to the long stages when all cores are busy (verdicts must not flip under load)
+            if len(ob.pc) > 3:
+                s0 = z3.Solver()
+                s0.set('timeout', 6000)
+                hyp = _relevant(ob.pc, ob.formula)
+                if 0 < len(hyp) < len(ob.pc):
+                    s0.add(*hyp)
+                    s0.add(z3.Not(ob.formula))
+                    if s0.check() == z3.unsat:
+                        done = 'z3(relevant hypotheses)'
+            if not done:
+                s.set('timeout', 14000)
+                r = s.check()
+                if r == z3.unsat:
+                    done = 'z3'
+                elif r == z3.unknown and _relaxed_unsat(ob, 20):
+                    done = 'z3:real-relaxation(nlsat)'
+        if not done and r == z3.unknown:
+            if use_cvc5 and _cvc5(s.to_smt2().replace('(check-sat)', ''), timeout_s) == 'unsat':
+                done = 'cvc5'
+            elif timeout_s > 6 and _relaxed_unsat(ob, timeout_s):
+                done = 'z3:real-relaxation(nlsat)'
         if done:
             ob.status, ob.backend = 'discharged', done
             ob.time = time.time() - t0
             return ob
-        s.set('timeout', int(timeout_s * 1000))
-        r = s.check()
+        if r == z3.unknown:
+            s.set('timeout', int(timeout_s * 1000))
+            r = s.check()
         if r == z3.unknown:
             s2 = z3.TryFor(z3.Then('simplify', 'solve-eqs', 'smt'), int(min(timeout_s, 30) * 1000)).solver()
             s2.add(*ob.pc)
@@ -161,6 +182,19 @@ def discharge(ob, inputs, timeout_s=30, use_cvc5=True, ufuns=None):
         if not ok:
             r = z3.unknown
             ob.note = (ob.note + ' solver model did not validate (treated as unknown)').strip()
+            # an invalid model says nothing: let the other back ends decide before giving up
+            if _relaxed_unsat(ob, max(20, timeout_s)):
+                ob.status, ob.backend = 'discharged', 'z3:real-relaxation(nlsat)'
+                ob.time = time.time() - t0
+                return ob
+            if use_cvc5:
+                s9 = z3.Solver()
+                s9.add(*ob.pc)
+                s9.add(z3.Not(ob.formula))
+                if _cvc5(s9.to_smt2().replace('(check-sat)', ''), timeout_s) == 'unsat':
+                    ob.status, ob.backend = 'discharged', 'cvc5'
+                    ob.time = time.time() - t0
+                    return ob
     if r == z3.unknown:
         m = random_refute(ob, inputs)
         if m is not None:
